@@ -40,8 +40,20 @@ var ops = map[OpCode]OpFunc{
 	},
 
 	// Shift
-	"<<": func(left, right float64) float64 { return float64(int64(left) << int64(right)) },
-	">>": func(left, right float64) float64 { return float64(int64(left) >> int64(right)) },
+	"<<": func(left, right float64) float64 {
+		count := int64(right)
+		if count < 0 { // undefined (a negative shift count would panic)
+			return math.NaN()
+		}
+		return float64(int64(left) << count)
+	},
+	">>": func(left, right float64) float64 {
+		count := int64(right)
+		if count < 0 {
+			return math.NaN()
+		}
+		return float64(int64(left) >> count)
+	},
 	"&":  func(left, right float64) float64 { return float64(int64(left) & int64(right)) },
 	"|":  func(left, right float64) float64 { return float64(int64(left) | int64(right)) },
 
